@@ -139,8 +139,18 @@ VCmp(a, b, s) ==
     [] a.t = "nil" /\ b.t = "nil" -> [ok |-> TRUE, c |-> 0]
     [] a.t = "list" /\ b.t = "list" -> LET x == Items(a, s) y == Items(b, s) IN
           IF Len(x) # Len(y) THEN [ok |-> TRUE, c |-> CmpInt(Len(x), Len(y))] ELSE SeqCmp(x, y, s)
+    \* errors order by message, then not-raised before raised (object/error.go:Compare)
+    [] a.t = "error" /\ b.t = "error" ->
+          [ok |-> TRUE, c |-> IF a.v = b.v THEN (IF a.raised = b.raised THEN 0 ELSE IF a.raised THEN 1 ELSE -1)
+                              ELSE IF LexLess(a.v, b.v) THEN -1 ELSE 1]
     [] OTHER -> [ok |-> FALSE, c |-> 0]
 Comparable(v) == v.t \in {"int", "str", "bool", "nil", "list"}
+\* no error value inside v (to nesting depth d): comparisons that meet an error value below the top level, or an
+\* error whose message is outside the model, are left to the implementation (Unknown)
+RECURSIVE ErrFree(_,_,_)
+ErrFree(v, s, d) == IF v.t = "error" THEN FALSE
+                    ELSE IF v.t = "list" THEN (d > 0 /\ \A i \in 1..Len(Items(v, s)): ErrFree(Items(v, s)[i], s, d - 1))
+                    ELSE TRUE
 
 Abs(n) == IF n < 0 THEN -n ELSE n
 Small(n) == Abs(n) <= BIG
@@ -163,7 +173,13 @@ BinOp(op, a, b, s) ==
   IF op = "==" THEN (IF EqKnown(a, b) THEN Ok(VBool(VEq(a, b, s)), s) ELSE Unknown(s))
   ELSE IF op = "!=" THEN (IF EqKnown(a, b) THEN Ok(VBool(~VEq(a, b, s)), s) ELSE Unknown(s))
   ELSE IF op \in {"<", "<=", ">", ">="} THEN
-     IF ~Comparable(a) THEN (IF a.t \in {"map", "set", "fn", "builtin", "method", "error"} THEN Raise("type error", s) ELSE Unknown(s))
+     IF a.t = "error" THEN
+        (IF b.t # "error" THEN Raise("type error", s)
+         ELSE IF Opaque(a) \/ Opaque(b) THEN Unknown(s)
+         ELSE LET r == VCmp(a, b, s) IN
+              Ok(VBool(CASE op = "<" -> r.c < 0 [] op = "<=" -> r.c <= 0 [] op = ">" -> r.c > 0 [] op = ">=" -> r.c >= 0), s))
+     ELSE IF ~Comparable(a) THEN (IF a.t \in {"map", "set", "fn", "builtin", "method"} THEN Raise("type error", s) ELSE Unknown(s))
+     ELSE IF ~ErrFree(a, s, 6) \/ ~ErrFree(b, s, 6) THEN Unknown(s)
      ELSE LET r == VCmp(a, b, s) IN
      IF ~r.ok THEN Raise("type error", s)
      ELSE Ok(VBool(CASE op = "<" -> r.c < 0 [] op = "<=" -> r.c <= 0 [] op = ">" -> r.c > 0 [] op = ">=" -> r.c >= 0), s)
@@ -411,7 +427,8 @@ CallBuiltin(n, args, s) ==
                                       ELSE NewList(IF Truthy(r.v, r.s) THEN <<xs[2], xs[1]>> ELSE xs, r.s)
                        ELSE CASE args[1].t \in {"list", "set"} ->
                                    LET xs == IF args[1].t = "list" THEN Items(args[1], s) ELSE SetItems(args[1], s) IN
-                                   IF \E i \in 1..Len(xs): ~Comparable(xs[i]) THEN (IF Len(xs) < 2 THEN NewList(xs, s) ELSE Raise("anyerror", s))
+                                   IF \E i \in 1..Len(xs): ~ErrFree(xs[i], s, 6) THEN Unknown(s)
+                                   ELSE IF \E i \in 1..Len(xs): ~Comparable(xs[i]) THEN (IF Len(xs) < 2 THEN NewList(xs, s) ELSE Raise("anyerror", s))
                                    ELSE LET r == SortVals(xs, s) IN IF r.ok THEN NewList(r.v, s) ELSE Raise("anyerror", s)
                               [] args[1].t = "map" -> LET ks == SortKeys(DOMAIN MapOf(args[1], s)) IN
                                      NewList([i \in 1..Len(ks) |-> VStr(ks[i])], s)
